@@ -26,6 +26,7 @@ def dispatch (line : String) : String :=
     else if cmd = "errstop" then errstopLine toks
     else if cmd = "wrqsilent" then wrqsilentLine toks
     else if cmd = "staleretx" then staleretxLine toks
+    else if cmd = "quiet" then quietLine toks
     else if cmd = "multi" then multiLine toks
     else if cmd = "cfg" then cfgLine toks
     else if cmd = "loop" then loopLine toks
